@@ -6,9 +6,12 @@
      - the byte-level splice used by the read paths (base.InjectJSONProperties and InjectJSONPropertiesFromBytes) is correct for EVERY
        object text and EVERY key/value list, whatever the lexical rules for string and number literals are;
      - the reserved-property logic: what is stripped, what each write path refuses, what it stores.
+     - every write entry point as one function accept : entry -> request text -> result, every read exit as one
+       function read : exit -> metadata -> stored text -> response, and the round trip over all entry x exit pairs.
    The fidelity of the JSON encoder/decoder libraries (numbers, Unicode) is NOT a theorem; it is checked by
-   the differential monitor of the harness. *)
-From SG Require Import Base.Prelude C19.Json C19.JsonSplice C19.Reserved C19.SpliceProofs C19.ReservedProofs C19.Witness.
+   the differential monitor of the harness and enters the round-trip theorem as its one hypothesis (sem_canon). *)
+From SG Require Import Base.Prelude C19.Json C19.JsonSplice C19.Reserved C19.SpliceProofs C19.ReservedProofs
+  C19.Accept C19.AcceptProofs C19.ReadPath C19.ReadProofs C19.AcceptV C19.RoundTrip C19.Witness.
 Open Scope N_scope.
 
 (* ---- the splice ---- *)
@@ -93,6 +96,150 @@ Theorem C19_reserved_are_underscore : forall p m, (consumed p m || must_not_set 
 Proof. exact consumed_is_underscore. Qed.
 Print Assumptions C19_reserved_are_underscore.
 
+(* ---- every write entry point, every request text (Accept.v) ----
+   accept : entry -> top -> result.  entry = PUT | POST | _bulk_docs | PUT ?new_edits=false | _bulk_docs new_edits=false |
+   BLIP rev | BLIP rev with deltaSrc | raw write + on-demand import | raw write + import feed;  top = syntax error |
+   array/string/number/boolean | null | object with its members in text order (duplicate names possible, each with
+   the kind of its value and whether the name was spelled with an escape) and "bytes follow the object". *)
+
+(* what is stored is exactly: the members the decoder sees (the LAST of a duplicated name) minus the ones the entry
+   point consumes; nothing is invented, no kind is altered *)
+Theorem C19_accept_stores_exactly : forall e raw tr ms vb, accept e (TObj raw tr) = RStored ms vb ->
+  forall k v, In (k, v) ms <-> exists esc, In (k, v, esc) (dedupe raw) /\ consumed_e e (k, v, esc) = false.
+Proof. exact accept_stored_exact. Qed.
+Print Assumptions C19_accept_stores_exactly.
+
+(* stored_body_has_no_reserved_keys: for EVERY entry point and EVERY request text, no member of the stored TEXT --
+   shadowed duplicates of a byte-preserving entry point included -- is named _id, _rev, _revisions, _sync, _purged
+   or _sync_* (reserved_everywhere: the exact common set; _cv, _exp, _deleted, _attachments are NOT in it, see
+   C19_reserved_leaks_exact), and _removed survives only as null *)
+Theorem C19_stored_body_has_no_reserved_keys : forall e t r tms tr, accept e t = r -> stored_text t r = Some (tms, tr) ->
+  forall k, In k (map fst tms) -> reserved_everywhere k = false.
+Proof. exact stored_no_reserved. Qed.
+Print Assumptions C19_stored_body_has_no_reserved_keys.
+
+Theorem C19_stored_removed_only_null : forall e raw tr ms vb, accept e (TObj raw tr) = RStored ms vb ->
+  forall v, In (k_removed, v) ms -> v = KNull.
+Proof. exact stored_removed_null. Qed.
+Print Assumptions C19_stored_removed_only_null.
+
+(* the names the read paths inject (_id _rev _revisions _exp _cv _deleted _attachments) that nevertheless reach a
+   stored body, entry point by entry point and kind by kind: exactly the table [leak] of Accept.v
+     _exp:null              every gateway entry point          _exp:<not a number>   new_edits=false (PUT and _bulk_docs)
+     _cv:<anything>         new_edits=false, BLIP rev, import  _attachments:null     BLIP rev
+     _deleted, _attachments import
+   (each line has a witness in C19_Refuted.v / the non-vacuity example) *)
+Theorem C19_reserved_leaks_exact : forall e raw tr ms vb, accept e (TObj raw tr) = RStored ms vb ->
+  forall k v, In (k, v) ms -> In k read_keys -> leak e k v = true.
+Proof. exact stored_read_key_is_leak. Qed.
+Print Assumptions C19_reserved_leaks_exact.
+
+(* user_keys_preserved: values carried along (V: value texts, kd: their kind, canon: one decode / encode pass).  Every
+   member whose name does not start with an underscore is stored -- byte for byte when the entry point keeps the
+   received bytes (vb = true), re-encoded once (canon: whitespace dropped, escapes normalised, number literals
+   kept as json.Number) when the body is marshalled again; and every stored member was written *)
+Theorem C19_user_keys_preserved : forall (V : Type) (kd : V -> vk) (canon : V -> V) e t d vb,
+  accept_v V kd canon e t = VStored d vb ->
+  exists raw tr, t = VObj raw tr /\
+    (forall k v esc, In (k, v, esc) (dedupe_k vkey raw) -> (forall r, k <> c_underscore :: r) ->
+       In (k, if vb then v else canon v) (dedupe_k fst (sd_ms d))) /\
+    (forall k v', In (k, v') (dedupe_k fst (sd_ms d)) ->
+       exists v esc, In (k, v, esc) raw /\ v' = (if vb then v else canon v)).
+Proof. exact user_keys_preserved_v. Qed.
+Print Assumptions C19_user_keys_preserved.
+
+(* a text that is not an object is never stored: refused with a status -- or the handler panics, which happens
+   exactly for the literal null on POST /ks/ and on a BLIP rev (refuted as a property in C19_Refuted.v) *)
+Theorem C19_nonobject_never_stored : forall e t, (t = TInvalid \/ t = TNonObj \/ t = TNull) ->
+  (exists s, accept e t = RRej s) \/ accept e t = RPanic.
+Proof. exact nonobject_never_stored. Qed.
+Print Assumptions C19_nonobject_never_stored.
+
+Theorem C19_panic_exactly_null_post_blip : forall e t, accept e t = RPanic <-> t = TNull /\ (e = EPost \/ e = EBlip).
+Proof. exact null_panics_exactly. Qed.
+Print Assumptions C19_panic_exactly_null_post_blip.
+
+(* bytes after the object are dropped by every entry point that marshals the body again; they reach the bucket only
+   through the two that keep the received bytes *)
+Theorem C19_trailing_bytes_only_verbatim : forall e t r tms, accept e t = r -> stored_text t r = Some (tms, true) ->
+  e = EBlip \/ e = EImport.
+Proof. exact trailing_stored_only_verbatim. Qed.
+Print Assumptions C19_trailing_bytes_only_verbatim.
+
+(* BLIP rev with deltaSrc, EE branch (model only: go-fleecedelta is not part of this build): a delta cannot introduce
+   a property validateBlipBody refuses; such a member of the result was in the source body and is not touched *)
+Theorem C19_delta_introduces_no_disallowed : forall src delta st, blip_delta_ee src delta = OStored st ->
+  forall k v, In (k, v) st -> mem k blip_disallowed = true -> In (k, v) src /\ ~ In k (map mkey delta).
+Proof. exact delta_introduces_no_disallowed. Qed.
+Print Assumptions C19_delta_introduces_no_disallowed.
+
+(* ---- every read exit, every stored text (ReadPath.v) ---- *)
+
+(* read_is_stored_plus_metadata: a stored body with distinct names, none of them injected by the exit, and nothing
+   after the object, comes back through EVERY exit with no duplicate name, every stored member present (re-encoded by
+   the map exits, byte for byte by the splice exits), and otherwise exactly the properties the exit injects *)
+Theorem C19_read_is_stored_plus_metadata : forall (V : Type) (canon : V -> V) x mt (d : sdoc V),
+  NoDup (map fst (sd_ms d)) -> sd_trailing d = false ->
+  (forall k, In k (map fst (sd_ms d)) -> ~ In k (injected x mt)) ->
+  exists out, read canon x mt d = Some out /\ NoDup (map fst out) /\
+    forall k o, In (k, o) out <->
+      (In k (injected x mt) /\ o = OG) \/ (exists v, In (k, v) (sd_ms d) /\ o = OU (cn canon x v)).
+Proof. exact read_clean. Qed.
+Print Assumptions C19_read_is_stored_plus_metadata.
+
+(* ... and for ANY stored text (duplicate names, reserved names): what a client's decoder makes of the response is
+   what a decoder makes of the stored text, with the injected properties laid over it *)
+Theorem C19_read_parsed_any_stored_text : forall (V : Type) (canon : V -> V) x mt (d : sdoc V) out,
+  read canon x mt d = Some out ->
+  forall k o, In (k, o) (parsed out) <->
+    (In k (injected x mt) /\ o = OG) \/
+    (~ In k (injected x mt) /\ exists v, In (k, v) (dedupe_k fst (sd_ms d)) /\ o = OU (cn canon x v)).
+Proof. exact read_parsed. Qed.
+Print Assumptions C19_read_parsed_any_stored_text.
+
+(* bytes after the stored object: the map exits answer, the splice exits cannot *)
+Theorem C19_read_trailing : forall (V : Type) (canon : V -> V) x mt ms,
+  read canon x mt {| sd_ms := ms; sd_trailing := true |} = None <-> splices x = true.
+Proof. exact read_trailing. Qed.
+Print Assumptions C19_read_trailing.
+
+(* ---- entry x exit ---- *)
+
+(* roundtrip_all_pairs: EVERY entry point x EVERY exit.  If the stored text has nothing after the object and none of
+   its names is read-injected, the response -- as a client's decoder sees it -- consists of the injected properties
+   and, for every written member (the last of its name) that the entry point does not consume, a member of the same
+   name carrying the written text re-encoded once per marshalling step (rendered) *)
+Theorem C19_roundtrip_all_pairs : forall (V : Type) (kd : V -> vk) (canon : V -> V) e x mt t d vb,
+  accept_v V kd canon e t = VStored d vb ->
+  sd_trailing d = false ->
+  (forall k, In k (map fst (sd_ms d)) -> ~ In k read_keys) ->
+  exists raw tr out, t = VObj raw tr /\ read canon x mt d = Some out /\
+    forall k o, In (k, o) (parsed out) <->
+      (In k (injected x mt) /\ o = OG) \/
+      (exists v esc, In (k, v, esc) (dedupe_k vkey raw) /\ consumed_e e (k, kd v, esc) = false /\
+                     o = OU (rendered V canon x vb v)).
+Proof. exact roundtrip_all_pairs. Qed.
+Print Assumptions C19_roundtrip_all_pairs.
+
+(* the headline, no hypothesis about the stored state left: a written object with distinct names, none of them one of the
+   seven read-injected names, and nothing after it.  For every entry point that accepts it and every exit: the read
+   succeeds, no name is duplicated, the members are the injected properties plus exactly the written members the
+   entry point does not consume, each denoting the JSON value that was written -- given only that one decode / encode
+   pass of the JSON library preserves the value (sem_canon, the library hypothesis the differential monitor tests) *)
+Theorem C19_roundtrip_clean_documents : forall (V : Type) (kd : V -> vk) (canon : V -> V) (S : Type) (sem : V -> S),
+  (forall v, sem (canon v) = sem v) ->
+  forall e x mt raw d vb,
+  accept_v V kd canon e (VObj raw false) = VStored d vb ->
+  NoDup (map vkey raw) ->
+  (forall k, In k (map vkey raw) -> ~ In k read_keys) ->
+  exists out, read canon x mt d = Some out /\ NoDup (map fst out) /\
+    forall k o, In (k, o) out <->
+      (In k (injected x mt) /\ o = OG) \/
+      (exists v esc, In (k, v, esc) raw /\ consumed_e e (k, kd v, esc) = false /\
+                     o = OU (rendered V canon x vb v) /\ sem (rendered V canon x vb v) = sem v).
+Proof. exact roundtrip_clean_documents. Qed.
+Print Assumptions C19_roundtrip_clean_documents.
+
 (* ---- non-vacuity ---- *)
 Example C19_nonvacuous :
   let ok := fun _ : list N => true in
@@ -103,6 +250,25 @@ Example C19_nonvacuous :
   must_not_set PBlip (k_id, KStr, true) = true /\
   write PPut [([97], KNum, false); (k_exp, KNum, false); (k_removed, KNull, false)] = OStored [([97], KNum); (k_removed, KNull)].
 Proof. exact nonvacuous_witness. Qed.
+
+(* the hypotheses of the round-trip theorems are satisfiable, on an input with a duplicate name, an underscore name that
+   is plain data and a consumed member, through a byte-preserving and a re-marshalling entry point and a splice and a
+   map exit; and every line of the leak table has an instance *)
+Example C19_nonvacuous_roundtrip :
+  let idv := fun v : vk => v in
+  let raw := [([97], KNum, false); ([95; 118; 118], KObj, false); ([97], KStr, false); (k_exp, KNum, false)] in
+  let mt := {| m_cv := true; m_deleted := false; m_exp := true; m_atts := ANil |} in
+  accept_v vk idv idv EPut (VObj raw true) =
+    VStored {| sd_ms := [([95; 118; 118], KObj); ([97], KStr)]; sd_trailing := false |} false /\
+  accept_v vk idv idv EImport (VObj [([97], KNum, false); ([97], KStr, false)] false) =
+    VStored {| sd_ms := [([97], KNum); ([97], KStr)]; sd_trailing := false |} true /\
+  read idv XChanges mt {| sd_ms := [([95; 118; 118], KObj); ([97], KStr)]; sd_trailing := false |} =
+    Some [([95; 118; 118], OU KObj); ([97], OU KStr); (k_id, OG); (k_rev, OG); (k_cv, OG)] /\
+  read idv (XGet true true) mt {| sd_ms := [([97], KNum); ([97], KStr)]; sd_trailing := false |} =
+    Some [([97], OU KStr); (k_id, OG); (k_rev, OG); (k_revisions, OG); (k_exp, OG); (k_cv, OG)] /\
+  leak EPutNE k_exp KTrue = true /\ leak EBlip k_cv KStr = true /\ leak EImport k_deleted KTrue = true /\
+  leak EPut k_exp KNull = true /\ leak EBlip k_attachments KNull = true.
+Proof. exact nonvacuous_roundtrip_witness. Qed.
 
 (* ---- the full property, of which the above is a part ----
    A system is given by its write paths (text -> stored state or refusal), its read paths (state -> text) and the
